@@ -245,6 +245,11 @@ Record honest (U : ufuns) : Prop := {
           match snd (fn n a) with Some (EUser m) => m = n | Some EBreak | Some ELBreak | Some ECont => False | _ => True end;
 }.
 
+Ltac take_calm_log Q L N c2 n :=
+  cbv zeta;
+  match goal with |- context [log_call ?cc ?k ?nm ?v] =>
+    destruct (calm_log_call cc k nm v Q) as [L N]; destruct (log_call cc k nm v) as [c2 n] end.
+
 Section WITH_U.
 Variable U : ufuns.
 Hypothesis HU : honest U.
@@ -261,8 +266,7 @@ Lemma call_cond_post c name al : calm c ->
 Proof.
   intro H. unfold call_cond. destruct (u_cond U name) as [f|] eqn:Ef; [|exact H].
   pose proof (calm_collect_args al c [] H) as Q. destruct (collect_args c al []) as [c1 la]. cbn [fst] in Q.
-  destruct (calm_log_call c1 (bs "cond") name la Q) as [L N].
-  destruct (log_call c1 (bs "cond") name la) as [c2 n]. cbn [fst snd] in L, N.
+  take_calm_log Q L NC c2 n. cbn [fst snd] in L, NC. rename NC into N.
   pose proof (h_cond U HU _ _ n la Ef) as Hh.
   destruct (f n la) as [b e]. cbn [fst snd] in *.
   destruct e as [x|]; [apply okc_user with (n := n); assumption|apply calm_okc; exact L].
@@ -288,8 +292,7 @@ Proof.
   - apply G, calm_mod_ifthenelse, B.
   - apply (G (w_bufX c1 raw, None, None)). split; [exact B|exact I].
   - destruct (u_mod U (m_id m)) as [f|] eqn:Ef.
-    + destruct (calm_log_call (w_bufX c1 raw) (bs "mod") (m_id m) (deref (w_bufX c1 raw) raw :: la) B) as [L N].
-      destruct (log_call (w_bufX c1 raw) (bs "mod") (m_id m) (deref (w_bufX c1 raw) raw :: la)) as [c2 n].
+    + take_calm_log B L NC c2 n. rename NC into N.
       cbn [fst snd] in L, N.
       pose proof (h_mod U HU _ _ n (deref c2 raw) la Ef) as Hh.
       destruct (f n (deref c2 raw) la) as [v|x].
@@ -569,8 +572,7 @@ Proof.
   { destruct (condHlp r) as [|h hs]; [apply good_none; exact H|].
     destruct (u_condok U (h :: hs)) as [fn|]; [|apply good_plain; [exact H|exact I]].
     pose proof (calm_collect_args (condHlpArg r) c [] H) as Q. destruct (collect_args c (condHlpArg r) []) as [c1 la]. cbn [fst] in Q.
-    destruct (calm_log_call c1 (bs "condok") (h :: hs) la Q) as [L _].
-    destruct (log_call c1 (bs "condok") (h :: hs) la) as [c2 n]. cbn [fst] in L.
+    take_calm_log Q L NQ c2 n. cbn [fst] in L.
     destruct (fn n la) as [v okv].
     assert (E3 : calm (w_bufBl (w_bufX c2 v) okv)) by exact L.
     destruct (u_ins U match condIns r with [] => bs "static" | x :: l => x :: l end) as [i|]; [|apply good_plain; [exact E3|exact I]].
@@ -624,8 +626,7 @@ Proof.
   destruct (callback r).
   { pose proof (calm_collect_args (args r) c [] H) as Q. destruct (collect_args c (args r) []) as [c1 la]. cbn [fst] in Q.
     destruct (u_cb U (src r)) as [fn|] eqn:Ef; [|apply good_plain; [exact Q|exact I]].
-    destruct (calm_log_call c1 (bs "cb") (src r) la Q) as [L N].
-    destruct (log_call c1 (bs "cb") (src r) la) as [c2 n]. cbn [fst snd] in L, N.
+    take_calm_log Q L NC c2 n. cbn [fst snd] in L, NC. rename NC into N.
     pose proof (h_cb U HU _ _ n la Ef) as Hh.
     split; [apply calm_okc; exact L|]. cbn [fst snd]. unfold post.
     destruct (fn n la) as [e|]; [|exact L]. destruct e; try tauto; try exact I. subst. exact N. }
@@ -637,7 +638,7 @@ Proof.
        (match builtin_getter (src r) with
         | Some g => run_bget (w_bufX c1 VNil) g la
         | None => match u_get U (src r) with
-                  | Some fn => let '(c0, n) := log_call (w_bufX c1 VNil) (bs "get") (src r) la in
+                  | Some fn => let '(c0, n) := log_call (w_bufX c1 VNil) (kind_of (bs "get") (match fn (ncalls (w_bufX c1 VNil)) la with inr _ => true | inl _ => false end)) (src r) la in
                                match fn n la with inl v => (c0, Some v, None) | inr x => (c0, None, Some x) end
                   | None => (w_bufX c1 VNil, None, Some EUnsupported)
                   end
@@ -647,8 +648,7 @@ Proof.
         destruct (run_bget (w_bufX c1 VNil) g la) as [[c2 ra] ea]. cbn [fst snd] in A1, A2.
         split; [exact A1|apply good_plain; assumption].
       - destruct (u_get U (src r)) as [fn|] eqn:Ef; [|split; [exact B|apply good_plain; [exact B|exact I]]].
-        destruct (calm_log_call (w_bufX c1 VNil) (bs "get") (src r) la B) as [L N].
-        destruct (log_call (w_bufX c1 VNil) (bs "get") (src r) la) as [c2 n]. cbn [fst snd] in L, N.
+        take_calm_log B L NC c2 n. cbn [fst snd] in L, NC. rename NC into N.
         pose proof (h_get U HU _ _ n la Ef) as Hh.
         destruct (fn n la) as [v|x]; [split; [exact L|apply good_none; exact L]|].
         split; [exact L|]. split; [apply calm_okc; exact L|]. cbn [fst snd]. unfold post.
